@@ -42,13 +42,67 @@ func (f *File) Write(start time.Time) error {
 	if f.Assumptions == nil {
 		f.Assumptions = []string{}
 	}
+	dir := filepath.Join(Root, "evidence")
+	name := f.PropertyID + ".json"
+	// A property decided by two engines (C19): the first engine writes a part file, the
+	// second merges it into the property's evidence.
+	if part := os.Getenv("VERIF_EVIDENCE_PART"); part != "" {
+		dir = filepath.Join(dir, "parts")
+		name = f.PropertyID + "." + part + ".json"
+	}
+	if part := os.Getenv("VERIF_EVIDENCE_MERGE"); part != "" {
+		pb, err := os.ReadFile(filepath.Join(dir, "parts", f.PropertyID+"."+part+".json"))
+		if err != nil {
+			return fmt.Errorf("evidence part %q missing: %v", part, err)
+		}
+		var o File
+		if err := json.Unmarshal(pb, &o); err != nil {
+			return err
+		}
+		f.merge(part, &o)
+	}
 	b, err := json.MarshalIndent(f, "", " ")
 	if err != nil {
 		return err
 	}
-	dir := filepath.Join(Root, "evidence")
 	os.MkdirAll(dir, 0o755)
-	return os.WriteFile(filepath.Join(dir, f.PropertyID+".json"), b, 0o644)
+	return os.WriteFile(filepath.Join(dir, name), b, 0o644)
+}
+
+func num(v interface{}) int {
+	switch x := v.(type) {
+	case int:
+		return x
+	case float64:
+		return int(x)
+	}
+	return 0
+}
+
+// merge folds another engine's evidence for the same property and run into f: counts add
+// up, the other part's full coverage is kept under coverage["part_<name>"].
+func (f *File) merge(part string, o *File) {
+	c := f.Coverage
+	c["part_"+part] = o.Coverage
+	c["evaluations"] = num(c["evaluations"]) + num(o.Coverage["evaluations"])
+	c["distinct_nontrivial"] = num(c["distinct_nontrivial"]) + num(o.Coverage["distinct_nontrivial"])
+	c["rule"] = fmt.Sprint(c["rule"]) + " || " + fmt.Sprint(o.Coverage["rule"])
+	if s, ok := o.Coverage["samples"].([]interface{}); ok {
+		mine, _ := c["samples"].([]interface{})
+		c["samples"] = append(mine, s...)
+	}
+	if e, ok := o.Coverage["exhaustive"].(bool); ok && !e {
+		c["exhaustive"] = false
+	}
+	for _, k := range []string{"states", "transitions", "traces_validated_against_impl"} {
+		if v, ok := o.Coverage[k]; ok {
+			c[k] = num(v)
+		}
+	}
+	f.Assumptions = append(f.Assumptions, o.Assumptions...)
+	f.Violations += o.Violations
+	f.KnownFindings = append(f.KnownFindings, o.KnownFindings...)
+	f.WallS += o.WallS
 }
 
 // WriteReplay stores a replayable artefact and returns its path.
